@@ -35,8 +35,9 @@ void sparseFile(const std::string& path, uint64_t size, const std::vector<uint8_
 bool exists(const std::string& p) { struct stat st; return ::stat(p.c_str(), &st) == 0; }
 
 // ---- VOL ----
-void volCase(Ctx& ctx, const std::vector<uint64_t>& sizes, bool mustFit, const std::string& why)
+bool volCase(Ctx& ctx, const std::vector<uint64_t>& sizes, bool mustFit, const std::string& why)
 {
+	bool held = true;
 	std::string dir = ctx.freshDir("c20vol");
 	std::vector<std::string> files;
 	std::string key = "VOL members of";
@@ -51,27 +52,50 @@ void volCase(Ctx& ctx, const std::vector<uint64_t>& sizes, bool mustFit, const s
 		ctx.transition(); ctx.outcome(mc::fnv(key) ^ uint64_t(o.cls) ^ (uint64_t(pre) << 9));
 		if (mustFit) {
 			ctx.count("vol/at-the-limit-accepted");
-			if (o.cls != 'R') { ctx.violation("C20/vol/refused-although-it-fits", key, o.what); break; }
+			if (o.cls != 'R') { held = false, ctx.violation("C20/vol/refused-although-it-fits", key, o.what); break; }
 			// the written fields must hold the exact values: decode index and block header independently
 			auto r = mc::guarded([&] {
 				Archive::VolFile v(out);
 				if (v.GetCount() != sizes.size()) throw std::runtime_error("count");
 				for (std::size_t i = 0; i < sizes.size(); ++i) { if (v.GetSize(i) != sizes[i]) throw std::runtime_error("size field " + std::to_string(v.GetSize(i))); auto st = v.OpenStream(i); if (st->Length() != sizes[i]) throw std::runtime_error("block length " + std::to_string(st->Length())); }
 			});
-			if (r.cls != 'R') ctx.violation("C20/vol/field-value-after-accepting", key, r.what);
+			if (r.cls != 'R') held = false, ctx.violation("C20/vol/field-value-after-accepting", key, r.what);
 			struct stat st; ::stat(out.c_str(), &st);
 			uint64_t expect = 32 + 8 + ((2 * 8 + 3) / 4 * 4); (void)expect;
 		}
 		else {
 			ctx.count("vol/beyond-the-limit");
-			if (o.cls == 'R') { ctx.violation("C20/vol/accepted-although-it-does-not-fit", key, "archive written"); break; }
-			if (o.cls == 'X') { ctx.violation("C20/vol/non-std-exception", key, ""); break; }
-			if (pre) { auto now = mc::readFile(out); if (std::string(now.begin(), now.end()) != "SENTINEL-OUTPUT") { ctx.violation("C20/vol/destination-altered-by-refusal", key, "pre-existing destination now has " + std::to_string(now.size()) + " bytes"); break; } }
-			else if (exists(out)) { ctx.violation("C20/vol/destination-created-by-refusal", key, ""); break; }
+			if (o.cls == 'R') { held = false, ctx.violation("C20/vol/accepted-although-it-does-not-fit", key, "archive written"); break; }
+			if (o.cls == 'X') { held = false, ctx.violation("C20/vol/non-std-exception", key, ""); break; }
+			if (pre) { auto now = mc::readFile(out); if (std::string(now.begin(), now.end()) != "SENTINEL-OUTPUT") { held = false, ctx.violation("C20/vol/destination-altered-by-refusal", key, "pre-existing destination now has " + std::to_string(now.size()) + " bytes"); break; } }
+			else if (exists(out)) { held = false, ctx.violation("C20/vol/destination-created-by-refusal", key, ""); break; }
 		}
 	}
 	ctx.state(); ctx.trace();
 	mc::removeTree(dir);
+	return held;
+}
+
+// every start of the third block from just beyond 2^32 down to exactly 2^32: two members of about 2 GiB and a small one. The header
+// length is measured, not assumed: an archive of three empty members with the same names is header + three 8-byte block headers
+void volBoundarySweep(Ctx& ctx)
+{
+	std::string dir = ctx.freshDir("c20sweep");
+	std::vector<std::string> files;
+	for (int i = 0; i < 3; ++i) { std::string p = dir + "/m" + std::to_string(i) + ".bin"; sparseFile(p, 0); files.push_back(p); }
+	uint64_t header = 0;
+	auto o = mc::guarded([&] { Archive::VolFile::CreateArchive(dir + "/probe.vol", files); header = mc::readFile(dir + "/probe.vol").size() - 24; });
+	mc::removeTree(dir);
+	if (o.cls != 'R' || header < 32 || header > 4096) { ctx.violation("C20/vol/probe-archive", "three empty members", o.what); return; }
+	const uint64_t s0 = 0x7FFFFFF0ull;
+	for (uint64_t d = 0; d < header + 64; d += 4) {
+		uint64_t s1 = s0 - d;
+		uint64_t third = header + 8 + s0 + 8 + s1;     // s0, s1 are multiples of 4: no padding
+		if (third <= 0xFFFFFFFFull) continue;           // fits: packing it would really copy 4 GiB; the accepted side is covered by the smaller sets
+		bool held = volCase(ctx, { s0, s1, 16 }, false, "third block would start at 2^32+" + std::to_string(third - 0x100000000ull) + " (header of " + std::to_string(header) + " bytes)");
+		ctx.count("vol/third-block-just-beyond-2^32");
+		if (!held) break;
+	}
 }
 
 // ---- CLM ----
@@ -260,6 +284,7 @@ void build(Ctx& ctx)
 	gCases.push_back({ 2, 0, 0 }); gCases.push_back({ 3, 0, 0 }); gCases.push_back({ 4, 0, 0 });
 	for (int f = 0; f <= 130; f += 10) gCases.push_back({ 5, f, std::min(f + 10, 131) });
 	gCases.push_back({ 6, 0, 0 });
+	gCases.push_back({ 7, 0, 0 });
 }
 
 void runCase(std::size_t i, Ctx& ctx)
@@ -293,6 +318,7 @@ void runCase(std::size_t i, Ctx& ctx)
 	case 3: prefixLimit<uint8_t>(ctx, "u8"); prefixLimit<int8_t>(ctx, "i8"); prefixLimit<uint16_t>(ctx, "u16"); prefixLimit<int16_t>(ctx, "i16"); ctx.state(); ctx.trace(); break;
 	case 4: mapContainerSize(ctx); break;
 	case 6: framesModulo(ctx); break;
+	case 7: volBoundarySweep(ctx); break;
 	default: frames(ctx, c.a, c.b); if (c.a == 120) ctx.sample("ArtFile::Write with a frame of 127 layers and count 127 (accepted) / 128 layers and count 0 (refused): every layer-list length 0..130 x every count 0..127"); break;
 	}
 }
